@@ -686,11 +686,17 @@ func runScan(c *vh.Ctx, cp *corpus) {
 	s.extracts(60*k, cp)
 	s.diags(150 * k)
 	s.muxes(25 * k)
-	s.offsets(110*k, cp)
 	s.extractCbor(40 * k)
 	s.arrayItems(60 * k)
-	s.protos(40 * k)
+	s.protos(c.Pick(50, 250))
 	s.cf.Flush()
+	// the offset walkers: whole blocks, a few hundred bytes to 3 KB each -> small shards
+	main := s.cf
+	s.cf = c.NewCaseFile("walk", scanHeader)
+	s.cf.SetShardSize(c.Pick(30, 60))
+	s.offsets(c.Pick(100, 700), cp)
+	s.cf.Flush()
+	s.cf = main
 	var parts []string
 	for _, k := range vh.SortedKeys(s.n) {
 		parts = append(parts, fmt.Sprintf("%s %d", k, s.n[k]))
